@@ -862,9 +862,16 @@ func (e *Engine) opList() {
 		return
 	}
 	listed := blobCounts(keys)
-	e.lastListed = map[string]string{}
+	// blob -> the comments it is listed under (a blob held both in memory and by the underlying agent is listed
+	// twice, in an order the sort does not fix): sorted, so that two listings compare as multisets
+	byBlob := map[string][]string{}
 	for _, k := range keys {
-		e.lastListed[string(k.Marshal())] = k.Comment
+		byBlob[string(k.Marshal())] = append(byBlob[string(k.Marshal())], k.Comment)
+	}
+	e.lastListed = map[string]string{}
+	for b, cs := range byBlob {
+		sort.Strings(cs)
+		e.lastListed[b] = strings.Join(cs, " | ")
 	}
 	e.checkListing(ub, t0, t1, listed, "List")
 	e.checkPurgeU(ub, ua, t0, t1, "List", nil)
